@@ -169,7 +169,7 @@ def constants_family(rep):
         cv = ld.get("consts", {})
         if cv.get("r") != "ok":
             # records and maps do not decode for ANY element kind (known): keyed by the container; everything else by container/kind
-            fsig = fam.split("/")[0] if fam.split("/")[0] in ("const-record", "const-map") else fam
+            fsig = fam.split("/")[0] if fam.split("/")[0] in ("const-record", "const-map", "const-tuple") else fam
             rep.fail(f"C07/roundtrip/constants-do-not-decode/{fsig}", f"{st}: the constants of the emitted file do not decode: {cv}", replay); continue
         if not (ld.get("reenc", {}).get("r") == "ok" and ld["reenc"].get("eq")):
             rep.fail(f"C07/roundtrip/reencode/{fam}", f"{st}: decode + re-encode does not reproduce the emitted bytes", replay); continue
@@ -183,6 +183,42 @@ def constants_family(rep):
     rep.cov.update({"const_universe_files": ok, "const_universe_value_found": holds, "const_universe_not_compiled": notcompiled})
     return ok
 
+
+def const_pairs_family(rep, tier):
+    """TWO constants in one file (MechBytefile.LayoutInv: every constant entry starts at a multiple of its OWN alignment, whatever
+    precedes it): every ordered pair of literals from a pool whose payloads coincide byte for byte across kinds of different
+    alignment (zeros and ones of every numeric kind, the empty string, false), behind a first definition whose name length shifts
+    the blob offsets through a whole alignment period.  The emitted file must load, its constants must decode and it must
+    re-encode byte for byte."""
+    kinds = ["u8", "u16", "u32", "u64", "u128", "i8", "i16", "i32", "i64", "i128", "f32"]
+    pool = [f"0<{k}>" for k in kinds] + [f"1<{k}>" for k in kinds] + ["0.0", "1.0", '""', '"a"', "false", "true", "0+0i", "1+0i", "0/1", "1/1"]
+    lens = list(range(1, 9)) if tier == "quick" else list(range(1, 17))
+    progs = []
+    for L in lens:
+        name = "abcdefghijklmnopq"[:L]
+        for i, x in enumerate(pool):
+            for j, y in enumerate(pool):
+                if tier == "quick" and (i * 7 + j * 3 + L) % 3 != 0: continue      # a third of the pairs per name length (every pair at some length)
+                progs.append((f"{x},{y}", [f"{name} := true", f"zq := {x}", f"zs := {y}"]))
+    reqs = [{"id": i, "mode": "bytecode", "stmts": st, "want_bytes": True} for i, (_, st) in enumerate(progs)]
+    outs = execpool.run_requests(reqs, nworkers=16, timeout=25, mem_limit_mb=4096)
+    ok = 0; skipped = 0
+    for (pair, st), (resp, oc) in zip(progs, outs):
+        replay = {"stmts": st}
+        if oc != "ok" or not resp or resp.get("interp", {}).get("r") != "ok" or resp.get("compile", {}).get("r") != "ok":
+            skipped += 1; continue
+        ld = resp.get("load", {})
+        if ld.get("r") != "ok":
+            rep.fail(f"C07/roundtrip/pairs/emitted-file-{ld.get('r')}", f"{st}: the file the compiler emitted does not load: {ld}", replay); continue
+        cv = ld.get("consts", {})
+        if cv.get("r") != "ok":
+            rep.fail(f"C07/roundtrip/pairs/constants-do-not-decode/{cv.get('class')}", f"{st}: the constants of the emitted file do not decode: {cv}", replay); continue
+        if not (ld.get("reenc", {}).get("r") == "ok" and ld["reenc"].get("eq")):
+            rep.fail("C07/roundtrip/pairs/reencode", f"{st}: decode + re-encode does not reproduce the emitted bytes", replay); continue
+        ok += 1
+    log(f"[C07] constant pairs: {ok}/{len(progs)} emitted files load / decode / re-encode exactly ({skipped} not interpreted or compiled)")
+    rep.cov.update({"const_pair_files": ok, "const_pair_programs": len(progs), "const_pair_not_compiled": skipped})
+    return ok
 
 SIZE_BOUNDS = [512, 1024, 2048, 4096, 8192, 12288, 16384, 32768, 65536]
 def size_family(rep, tier):
@@ -229,7 +265,7 @@ def size_family(rep, tier):
 
 def run(rep, tier, seed):
     rnd = random.Random(seed)
-    nrt = roundtrip_family(rep, tier) + constants_family(rep) + size_family(rep, tier)
+    nrt = roundtrip_family(rep, tier) + constants_family(rep) + const_pairs_family(rep, tier) + size_family(rep, tier)
     progs = PROGRAMS if tier != "quick" else PROGRAMS[:8]
     # two multi-block files: payload exactly one 4096-byte block (total 4100) and one crossing 8192 with a partial last block
     progs = progs + [[f'ss := "{"a" * 3776}"'], [f'sss := "{"b" * 7880}"']]
